@@ -18,6 +18,8 @@ def showErr : Err → String
   | .value => "err-value"
   | .type => "err-type"
   | .notImpl => "err-notimpl"
+  | .struct => "err-struct"
+  | .overflow => "err-overflow"
 
 def showE {α} (f : α → String) : Except Err α → String
   | .ok a => f a
@@ -110,15 +112,46 @@ def revOp (r : Rev) : SExp → Option (Rev × String)
       | .error e => some (r, showErr e)
   | .list [.atom "contains", i] => i.nat? >>= fun i => some (r, showE showBool (r.contains i))
   | .list [.atom "iter"] => some (r, showNatList r.iter)
-  | .list [.atom "len"] => some (r, showE toString r.len)
+  -- the builtin `len()` raises ValueError when `__len__` returns a negative number
+  | .list [.atom "len"] => some (r, match r.len with
+      | .ok n => if n < 0 then "err-value" else toString n
+      | .error e => showErr e)
   | .list [.atom "first"] => some (r, showOptNat r.first)
   | .list [.atom "last"] => some (r, showE showOptNat r.last)
+  | .list [.atom "before", i] => i.int? >>= fun i => some (r, showE showOptNat (r.before i))
+  | .list [.atom "after", i] => i.int? >>= fun i => some (r, showE showOptNat (r.after i))
+  | .list [.atom "copy"] => some (r, showE (fun r' => showInner r'.inner) r.copy)
+  | .list [.atom "union", o] => other? o >>= fun o => some (r, showE (fun r' => showInner r'.inner) (r.union o))
+  | .list [.atom "inter", o] => other? o >>= fun o => some (r, showE (fun r' => showInner r'.inner) (r.intersection o))
+  | .list [.atom "diff", o] => other? o >>= fun o => some (r, showE (fun r' => showInner r'.inner) (r.difference o))
+  | .list [.atom "invert", n] => n.nat? >>= fun n => some (r, showE (fun r' => showInner r'.inner) (r.invert n))
+  | .list [.atom "update", o] => other? o >>= fun o =>
+      match r.update o with
+      | .ok r' => some (r', showInner r'.inner)
+      | .error e => some (r, showErr e)
+  | .list [.atom "dupd", o] => other? o >>= fun o =>
+      match r.differenceUpdate o with
+      | .ok r' => some (r', showInner r'.inner)
+      | .error e => some (r, showErr e)
+  | .list [.atom "iupd", o] => other? o >>= fun o =>
+      match r.intersectionUpdate o with
+      | .ok r' => some (r', showInner r'.inner)
+      | .error e => some (r, showErr e)
   | _ => none
 
 def multiOp (m : Multi) : SExp → Option (Multi × String)
   | .list [.atom "contains", i] => i.nat? >>= fun i => some (m, showE showBool (m.contains i))
   | .list [.atom "iter"] => some (m, showNatList m.iter)
   | .list [.atom "len"] => some (m, showE toString m.len)
+  | .list [.atom "first"] => some (m, showE showOptNat m.first)
+  | .list [.atom "last"] => some (m, showE showOptNat m.last)
+  | .list [.atom "before", i] => i.int? >>= fun i => some (m, showE showOptNat (m.before i))
+  | .list [.atom "after", i] => i.int? >>= fun i => some (m, showE showOptNat (m.after i))
+  | .list [.atom "copy"] => some (m, showE (fun _ => "copied") m.copy)
+  | .list [.atom "union", o] => other? o >>= fun o => some (m, showE (fun _ => "set") (m.union o))
+  | .list [.atom "inter", o] => other? o >>= fun o => some (m, showE (fun _ => "set") (m.intersection o))
+  | .list [.atom "diff", o] => other? o >>= fun o => some (m, showE (fun _ => "set") (m.difference o))
+  | .list [.atom "invert", n] => n.nat? >>= fun n => some (m, showE (fun _ => "set") (m.invert n))
   | _ => none
 
 /-- Run a program, collecting the observations. -/
@@ -257,10 +290,12 @@ def numlists : List SExp → Option String
 
 /-! ## hash files -/
 open WM.HashFile in
-/-- `hash <startoffset> ((keyhex hash vallen valtag) ...) ((lookupkeyhex hash) ...) (closestkeyhex ...)`
-    Values are `(tag, length)` pairs; the hash function is the finite map given by the request. -/
+/-- `hash <ordered> <startoffset> ((keyhex hash vallen valtag) ...) ((lookupkeyhex hash) ...) (closestkeyhex ...)`
+    Values are `(tag, length)` pairs; the hash function is the finite map given by the request.
+    The writers are the format-checked `buildE` / `buildOrderedE`. -/
 def hashfile : List SExp → Option String
-  | [so, .list kvs, .list lookups, .list closest] => do
+  | [ordered, so, .list kvs, .list lookups, .list closest] => do
+    let ordered ← ordered.bool?
     let so ← so.nat?
     let kvs ← kvs.mapM fun e => match e with
       | .list [.atom k, h, vl, vt] => do
@@ -277,9 +312,10 @@ def hashfile : List SExp → Option String
     let hm : Std.HashMap Key Nat := table.foldl (fun m (k, h) => if m.contains k then m else m.insert k h) {}
     let hash : Key → Nat := fun k => (hm.get? k).getD 0
     let vlen : Nat × Nat → Nat := fun v => v.2
-    match build hash vlen so (kvs.map fun (k, _, vl, vt) => (k, (vt, vl))) with
-    | none => some "nonterminating"
-    | some f =>
+    let pairs := kvs.map fun (k, _, vl, vt) => (k, (vt, vl))
+    match (if ordered then buildOrderedE hash vlen so pairs else buildE hash vlen so pairs) with
+    | .error e => some (showErr e)
+    | .ok f =>
       let poss := showNatList (f.recs.map (·.pos))
       let tabs := (List.range 256).filterMap fun b =>
         match f.tables[b]? with
@@ -287,14 +323,12 @@ def hashfile : List SExp → Option String
             some s!"({b} {tablePos f b} {" ".intercalate (t.map fun s => s!"({s.1} {s.2})")})"
         | none => some s!"({b} missing)"
       let looks := lookups.map fun (k, _) => showNatList ((all hash f k).map (·.1))
-      let ordered := orderedKeysOk [] (kvs.map (·.1))
-      let tc := ((WM.NumLists.GA.mk .H [] true).extend (f.index.map Int.ofNat)).1.tc
       let cl := closest.map fun k =>
         match closestKey f k, itemsFrom vlen f k with
         | .ok ck, .ok items => s!"({showOpt showHex ck} {items.length})"
         | _, _ => "err"
       let its := showList (fun (kv : Key × (Nat × Nat)) => s!"({showHex kv.1} {kv.2.1})") (items vlen f)
-      some s!"{poss} {f.endofdata} ({" ".intercalate tabs}) ({" ".intercalate looks}) {showBool ordered} {showTC tc} ({" ".intercalate cl}) {its}"
+      some s!"{poss} {f.endofdata} ({" ".intercalate tabs}) ({" ".intercalate looks}) {showTC f.indexTC} {showHex f.indexBytes} ({" ".intercalate cl}) {its}"
   | _ => none
 
 /-! ## external sort, compound files, base 85 -/
